@@ -18,7 +18,8 @@ REQUIRED_THEOREMS = ['Properties.C01.rq_executed_logdet', 'Properties.C01.quad_e
     "Properties.C01.lu_logdet_is_log_abs_det_fderiv", "Properties.C01.lu_logdet_is_log_abs_det_fderiv_inverse", "Properties.C01.qr_logdet_is_log_abs_det_fderiv", "Properties.C01.qr_logdet_is_log_abs_det_fderiv_inverse", "Properties.C01.svd_logdet_is_log_abs_det_fderiv", "Properties.C01.svd_logdet_is_log_abs_det_fderiv_inverse", "Properties.C01.hh_logdet_is_log_abs_det_fderiv", "Properties.C01.hh_logdet_is_log_abs_det_fderiv_inverse", "Properties.C01.naive_forward_is_affine_fderiv", "Properties.C01.linear_pass_entry", "Properties.C01.coupling_quadratic_logdet_is_jacobian", "Properties.C01.coupling_cubic_logdet_is_jacobian", "Properties.C01.coupling_linear_logdet_is_jacobian", "Properties.C01.ar_quadratic_logdet_is_jacobian", "Properties.C01.ar_cubic_logdet_is_jacobian", "Properties.C01.ar_linear_logdet_is_jacobian", "Properties.C01.coupling_quadratic_tails_logdet_is_jacobian", "Properties.C01.coupling_cubic_tails_logdet_is_jacobian", "Properties.C01.coupling_linear_tails_logdet_is_jacobian", "Properties.C01.ar_quadratic_tails_logdet_is_jacobian", "Properties.C01.ar_cubic_tails_logdet_is_jacobian", "Properties.C01.ar_linear_tails_logdet_is_jacobian", "Properties.C01.coupling_linear_inverse_logdet_is_jacobian",
     "Properties.C01.naive_logdet_is_log_abs_det_fderiv", "Properties.C01.naive_logdet_is_log_abs_det_fderiv_inverse", "Properties.C01.naive_inverse_row_is_affine",
     "Properties.C01.coupling_rq_logdet_is_jacobian", "Properties.C01.coupling_rq_inverse_logdet_is_jacobian", "Properties.C01.coupling_rq_tails_logdet_is_jacobian", "Properties.C01.coupling_rq_tails_inverse_logdet_is_jacobian", "Properties.C01.coupling_quadratic_inverse_logdet_is_jacobian", "Properties.C01.coupling_cubic_inverse_logdet_is_jacobian", "Properties.C01.quad_yk_facts",
-    "Properties.C01.det_id_prodMap", "Properties.C01.step_logdet_returned", "Properties.C01.chunk2_splitFin", "Properties.C01.fwdStages_step", "Properties.C01.stages_logdet_is_jacobian", "Properties.C01.multiscale_logdet_is_sum_and_jacobian", "Properties.C01.two_stage_logdet", "Properties.C01.two_stage_built", "Properties.C01.coupling_item_logdet_img", "Properties.C01.coupling_item_abs_det_img", "Properties.C01.coupling_item_det_img", "Properties.C01.layer_ld_entries", "Properties.C01.layer_ld_channels_pixels", "Properties.C01.itemMap_eq", "Properties.C01.itemMap_self", "Properties.C01.coupling_additive_item_logdet_img", "Properties.C01.coupling_affine_item_logdet_img", "Properties.C01.coupling_rq_tails_item_logdet_img", "Properties.C01.coupling_additive_item_logdet_img_diffNet", "Properties.C01.coupling_affine_item_logdet_img_diffNet", "Properties.C01.coupling_affine_item_logdet_img_affineNet", "Properties.C01.coupling_rq_tails_item_logdet_img_const", "Properties.C01.coupling_additive_item_det_one_img",]
+    "Properties.C01.det_id_prodMap", "Properties.C01.step_logdet_returned", "Properties.C01.chunk2_splitFin", "Properties.C01.fwdStages_step", "Properties.C01.stages_logdet_is_jacobian", "Properties.C01.multiscale_logdet_is_sum_and_jacobian", "Properties.C01.two_stage_logdet", "Properties.C01.two_stage_built", "Properties.C01.coupling_item_logdet_img", "Properties.C01.coupling_item_abs_det_img", "Properties.C01.coupling_item_det_img", "Properties.C01.layer_ld_entries", "Properties.C01.layer_ld_channels_pixels", "Properties.C01.itemMap_eq", "Properties.C01.itemMap_self", "Properties.C01.coupling_additive_item_logdet_img", "Properties.C01.coupling_affine_item_logdet_img", "Properties.C01.coupling_rq_tails_item_logdet_img", "Properties.C01.coupling_additive_item_logdet_img_diffNet", "Properties.C01.coupling_affine_item_logdet_img_diffNet", "Properties.C01.coupling_affine_item_logdet_img_affineNet", "Properties.C01.coupling_rq_tails_item_logdet_img_const", "Properties.C01.coupling_additive_item_det_one_img",
+    "Properties.C01.stageJac_of_passIs", "Properties.C01.stageJac_lu", "Properties.C01.stageJac_qr", "Properties.C01.stageJac_svd", "Properties.C01.stageJac_hh", "Properties.C01.stageJac_naive", "Properties.C01.multiscale_two_pass_logdet_is_jacobian", "Properties.C01.multiscale_lu_logdet_is_jacobian", "Properties.C01.multiscale_lu_logdet_is_jacobian_any",]
 RULE = ("registry of transform configurations (element-wise non-linearities, Piecewise*CDF, coupling layers with 2-D/image inputs, numeric "
         "masks, ResidualNet/ConvResidualNet/plain conditioners, context on/off, masked autoregressive transforms) x parameter regimes "
         "(fresh, zeros, N(0,.5) perturbed, wide) x batches of in-domain inputs incl. tail-bound atoms; the model is fed the recorded "
